@@ -132,6 +132,10 @@ fn loom_pass(threads: u32, k: usize, bound: usize) -> Result<LoomOut, String> {
         } else if l.starts_with("PARALLEL ") {
             lo.par_execs = num(l, "executions=");
             lo.par_outcomes = num(l, "outcomes=");
+        } else if l.starts_with("COLD ") {
+            lo.serial_execs += num(l, "serial_executions=");
+            lo.par_execs += num(l, "executions=");
+            lo.par_outcomes += num(l, "outcomes=");
         } else if let Some(r) = l.strip_prefix("MAIN_DRAW_VALUES ") {
             lo.main_values = r.trim().parse().unwrap_or(0);
         } else if let Some(r) = l.strip_prefix("SAMPLE ") {
@@ -288,7 +292,7 @@ fn main() {
     run.cov("evaluations", execs.max(1));
     run.cov("distinct_nontrivial", execs);
     run.cov("exhaustive", !run.has_violations());
-    run.cov("rule", "loom DPOR with the stated preemption bound over the 2-3 thread harness (each thread: k node creations through from_item/insert_at, merge, split, remove, collect on a treap it owns; main draws one priority first); every execution runs the treap crate's own source with its shared state rerouted to loom; `transitions` = complete schedules executed (serialised reference + unserialised), `states` = distinct unserialised outcomes; each loom execution is a distinct schedule");
+    run.cov("rule", "loom DPOR with the stated preemption bound over the 2-3 thread harness (each thread: k node creations through from_item/insert_at, merge, split, remove, collect on a treap it owns, then a merge/split of three nodes with hand-set EQUAL priorities whose resulting shape must equal the solo run's; explored twice: main draws one priority before spawning, and 'cold' where the threads' first creations are the first of the process); every execution runs the treap crate's own source with its shared state rerouted to loom; `transitions` = complete schedules executed (serialised reference + unserialised), `states` = distinct unserialised outcomes; each loom execution is a distinct schedule");
     run.assume("loom models the primitives that build.rs reroutes (thread_local!, std::sync, std::thread, non-mut statics); accesses it does not intercept (static mut, raw UnsafeCell) are covered only by the free-running Miri pass, one execution per configuration");
     if !race_found && execs == 0 {
         run.machinery_failure("no loom execution was counted");
